@@ -26,6 +26,7 @@
 #include <time.h>
 #include <unistd.h>
 
+#include <openssl/bn.h>
 #include <openssl/crypto.h>
 
 #include "aws_readkeys.h"
@@ -836,6 +837,18 @@ main(int argc, char ** argv)
 		else if (strncmp(line, "ctr ", 4) == 0) do_ctr(line);
 		else if (strncmp(line, "dh", 2) == 0) do_dh(line);
 		else if (strncmp(line, "sig ", 4) == 0) do_sig(line);
+		else if (strncmp(line, "tz ", 3) == 0) {
+			/* the process's time zone is none of the signature's business */
+			char z[64]; if (sscanf(line, "tz %63s", z) == 1) { if (strcmp(z, "-") == 0) unsetenv("TZ"); else setenv("TZ", z, 1); tzset(); }
+		}
+		else if (strncmp(line, "osslerr", 7) == 0) {
+			/* an unrelated, legitimately failing call of the bignum library leaves an entry in its per-thread error queue */
+			BN_CTX * ctx = BN_CTX_new(); BIGNUM * a = BN_new(), * n = BN_new(), * r;
+			BN_set_word(a, 6); BN_set_word(n, 9);
+			r = BN_mod_inverse(NULL, a, n, ctx);
+			if (r != NULL) BN_free(r);
+			BN_free(a); BN_free(n); BN_CTX_free(ctx);
+		}
 		else if (strncmp(line, "keyfile ", 8) == 0) do_keyfile(line);
 		else if (strncmp(line, "drbg ", 5) == 0) do_drbg(line);
 	}
